@@ -296,7 +296,10 @@ class History:
         else:
             keys = ['title', 'body', 'epic', 'state', 'claim', 'result']
             n = rng.choice([1, 1, 1, 2, 2, 3, 4])
-            for key in rng.sample(keys, n):
+            chosen = rng.sample(keys, n)
+            if rng.random() < (self.profile or {}).get('result_p', 0) and 'result' not in chosen:
+                chosen.append('result')
+            for key in chosen:
                 if key == 'title':
                     f['title'] = pick_text(rng, valid=rng.random() < 0.9)
                 elif key == 'body':
